@@ -182,7 +182,6 @@ def arc_length_3point(p_start: NPPointType, p_btw: NPPointType, p_end: NPPointTy
 
     # Position vectors from centre
     rad_start = p_start - centre
-    rad_btw = p_btw - centre
     rad_end = p_end - centre
 
     mag1 = norm(rad_start)
@@ -194,8 +193,11 @@ def arc_length_3point(p_start: NPPointType, p_btw: NPPointType, p_end: NPPointTy
     # Determine the angle
     angle = np.arccos((rad_start.dot(rad_end)) / (mag1 * mag3))
 
-    # Check if the vectors define an exterior or an interior arcEdge
-    if np.dot(np.cross(rad_start, rad_btw), np.cross(rad_start, rad_end)) < 0:
+    # Check if the vectors define an exterior or an interior arcEdge:
+    # the arc is longer than half a circle when the point in between
+    # lies on the same side of the chord as the centre
+    chord_mid = p_start + 0.5 * vect_b
+    if np.dot(p_btw - chord_mid, centre - chord_mid) > 0:
         angle = 2 * np.pi - angle
 
     return angle * norm(radius)
